@@ -32,36 +32,72 @@ class LoopsChanged(Undecided):
     pass
 
 
-def sh(cmd, cwd=None, timeout=None, mem_gb=None, stdout=None):
-    """Run a command; returns (rc, out, err, seconds)."""
-    pre = None
-    if mem_gb:
-        import resource
-        lim = int(mem_gb * (1 << 30))
+_LIVE_GROUPS = set()
+_LIVE_LOCK = threading.Lock()
 
-        def pre():
-            resource.setrlimit(resource.RLIMIT_AS, (lim, lim))
-    t0 = time.time()
-    timed = mem_gb and os.path.exists("/usr/bin/time")
-    full = (["/usr/bin/time", "-f", "VERIF_MAXRSS_KB=%M"] + list(cmd)) if timed else cmd
-    p = subprocess.Popen(full, cwd=cwd, preexec_fn=pre, stdout=subprocess.PIPE, stderr=subprocess.PIPE, start_new_session=True)
-    try:
-        out, err = p.communicate(timeout=timeout)
-        rc = p.returncode
-    except subprocess.TimeoutExpired:
+
+def kill_children(*_args):
+    """Kill every process group started by sh() that is still alive (signal handler / atexit of bin/check)."""
+    with _LIVE_LOCK:
+        groups = list(_LIVE_GROUPS)
+    for g in groups:
         try:
-            os.killpg(p.pid, 9)
+            os.killpg(g, 9)
         except OSError:
             pass
-        out, err = p.communicate()
-        return -9, out.decode("utf-8", "replace"), "TIMEOUT after %ss" % timeout, time.time() - t0
-    err = err.decode("utf-8", "replace")
-    m = re.search(r"VERIF_MAXRSS_KB=(\d+)", err)
-    if m:
-        LAST_RSS[threading.get_ident()] = int(m.group(1)) / 1048576.0
-        if "Command terminated by signal" in err and rc >= 0:
-            rc = -9
-    return rc, out.decode("utf-8", "replace"), err, time.time() - t0
+
+
+def sh(cmd, cwd=None, timeout=None, mem_gb=None, stdout=None):
+    """Run a command; returns (rc, out, err, seconds).  The child is a process-group leader that dies with this
+    process (PR_SET_PDEATHSIG); its peak resident set is taken from wait4()."""
+    lim = int(mem_gb * (1 << 30)) if mem_gb else 0
+
+    def pre():
+        if lim:
+            import resource
+            resource.setrlimit(resource.RLIMIT_AS, (lim, lim))
+        try:
+            import ctypes
+            ctypes.CDLL("libc.so.6", use_errno=True).prctl(1, 9)   # PR_SET_PDEATHSIG, SIGKILL
+        except Exception:
+            pass
+    t0 = time.time()
+    out_f, err_f = tempfile.TemporaryFile(), tempfile.TemporaryFile()
+    p = subprocess.Popen(list(cmd), cwd=cwd, preexec_fn=pre, stdout=out_f, stderr=err_f, start_new_session=True)
+    with _LIVE_LOCK:
+        _LIVE_GROUPS.add(p.pid)
+    deadline = t0 + timeout if timeout else None
+    timed_out = False
+    delay = 0.01
+    try:
+        while True:
+            pid, status, ru = os.wait4(p.pid, os.WNOHANG)
+            if pid:
+                break
+            if deadline and time.time() > deadline and not timed_out:
+                timed_out = True
+                try:
+                    os.killpg(p.pid, 9)
+                except OSError:
+                    pass
+            time.sleep(delay)
+            delay = min(0.25, delay * 1.5)
+    finally:
+        with _LIVE_LOCK:
+            _LIVE_GROUPS.discard(p.pid)
+    p.returncode = os.waitstatus_to_exitcode(status)   # keeps Popen's destructor from waiting again
+    out_f.seek(0); err_f.seek(0)
+    out = out_f.read().decode("utf-8", "replace")
+    err = err_f.read().decode("utf-8", "replace")
+    out_f.close(); err_f.close()
+    if timed_out:
+        return -9, out, "TIMEOUT after %ss" % timeout, time.time() - t0
+    if mem_gb:
+        LAST_RSS[threading.get_ident()] = ru.ru_maxrss / 1048576.0   # kilobytes -> GB
+    rc = p.returncode
+    if rc < 0:
+        rc = -9 if rc in (-9, -6, -11) else rc
+    return rc, out, err, time.time() - t0
 
 
 LAST_RSS = {}
@@ -345,7 +381,7 @@ def run_cbmc(proof, gb, tmp, log, backend=None, extra=None, timeout=None):
     cmd = ["cbmc", gb, "--json-ui"] + flags + (extra or [])
     log.append("$ " + " ".join(cmd))
     rc, out, err, secs = sh(cmd, cwd=tmp, timeout=timeout or proof.get("timeout", 900),
-                            mem_gb=proof.get("mem_gb", 10))
+                            mem_gb=float(os.environ.get("VERIF_MEM_OVERRIDE", 0)) or proof.get("mem_gb", 10))
     results, status, msgs = parse_cbmc_json(out)
     return dict(rc=rc, results=results, status=status, msgs=msgs, secs=secs, cmd=" ".join(cmd),
                 rss_gb=LAST_RSS.get(threading.get_ident()),
